@@ -221,3 +221,13 @@ Print Assumptions C16_dq_insert.
 Print Assumptions C16_dq_poll.
 Print Assumptions C16_server_oracle_agrees.
 Print Assumptions C16_dq_incomplete_inside_insert_contract.
+
+(* Server.v, EVERY configuration (with or without the request limiter, any buffer), EVERY
+   transport, EVERY op list: inside the clock range OOracle is never printed *)
+Theorem C16_server_oracle_agrees_cfg :
+  forall (T C : Type) (tp : Transport.transport T Server.response Server.cmsg) (ctl : T -> C -> T) (tfuel : T -> nat)
+         (c : Server.cfg) (t0 : T) (ops : list (Server.op C)),
+  TimerWheelProofs6.advs ops <= TimerWheelProofs5.LIMIT ->
+  forall l, In l (fst (Server.run tp ctl tfuel c t0 ops)) -> ~ In Server.OOracle l.
+Proof. intros T C tp ctl tfuel. exact (TimerWheelProofs6.server_oracle_agrees_cfg tp ctl tfuel). Qed.
+Print Assumptions C16_server_oracle_agrees_cfg.
